@@ -923,7 +923,7 @@ func gen(w *kit.Out, r *kit.Rand, tier string) {
 	}
 
 	// ------------------------------------------------ 5. encrypted keys (bcrypt cost 12: the expensive part)
-	ncase := scale(3, 70)
+	ncase := scale(2, 24)
 	for c := 0; c < ncase; c++ {
 		w.Case(fmt.Sprintf("r/enc%d", c))
 		k := genKey(r)
@@ -932,7 +932,7 @@ func gen(w *kit.Out, r *kit.Rand, tier string) {
 		a := s.armor(r.Bool())
 		emitUndec(w, a.String(), pass, s)
 		emitUndec(w, a.String(), otherPass(r, pass), s)
-		for j := 0; j < scale(4, 9); j++ {
+		for j := 0; j < scale(4, 8); j++ {
 			t, _ := mutateArmor(r, a, s)
 			if !asciiOK(t) {
 				continue
